@@ -95,6 +95,22 @@ func famC05Refused() []explore.Event {
 	}
 }
 
+// idle with buffered pushes: removals pushed during IDLE and still buffered when DONE arrives must come out before the
+// completion result of DONE, not during the FETCH / STORE / SEARCH that follows.
+func famC05IdleBulk() []explore.Event {
+	return []explore.Event{
+		ev("deliver", 0),
+		conn("remove:INBOX:first"),
+		conn("readd:INBOX"),
+		ev("idle", 0), ev("done", 0),
+		ev("cmd", 0, `FETCH 1:* (FLAGS)`),
+		ev("cmd", 0, `SEARCH ALL`),
+		ev("cmd", 0, `NOOP`),
+		ev("cmd", 1, `STORE 1:* +FLAGS (\Deleted)`),
+		ev("cmd", 1, `EXPUNGE`),
+	}
+}
+
 func c05Families(d int) []explore.Family {
 	o := []string{"c05", "c01", "c02"}
 	sel3 := []string{"INBOX", "INBOX", "m2"}
@@ -104,6 +120,7 @@ func c05Families(d int) []explore.Family {
 		mboxFam("idle-close-reselect", d, o, 2, nil, famC05Idle()),
 		mboxFam("arrive-then-remove", d, o, 2, nil, famC05Arrive()),
 		mboxFam("refused-commands", d, o, 2, nil, famC05Refused()),
+		idleBulkFam("idle-bulk", d, o, famC05IdleBulk()),
 	}
 }
 
